@@ -341,4 +341,50 @@ def methodSkippedAt (t : Table) (o : MethodObs) (i : Nat) (m : String) : Bool :=
    | some r => !isPublic r && !r.static && r.prot && r.methods.contains m && !(m == "OPTIONS" && r.autoOptions)
    | none => false)
 
+/-! ### wave 8 — the server-state axis: refusal after ANY history
+
+`token_required` as modelled is a pure function of (configured token, presented credentials).  Whether the real
+wrapper's decision to check depends on something an EARLIER request left behind on the server object is a probed
+fact.  The defective mechanism (`sticky = true`): a marker on the server object that is set while an authorised
+request is handled and is not reset when its handler raises — from then on the check is skipped.  `Srv` carries
+that residue; `stepH` is one request of a history; the view's answer for a request is part of the request here
+(`payload` = the status the handler ends with, 500 = it raised), so histories with raising handlers are ordinary
+values of the quantifier. -/
+
+structure Srv (σ : Type) where
+  st : σ
+  residue : Bool
+
+/-- the request goes through the wrapper of a protected view (rule matched, method dispatched, not answered by Flask) -/
+def reachesWrapper (t : Table) (r : Request π) : Bool :=
+  match t.routes[r.route]? with
+  | some rt => rt.methods.contains r.method && !(r.method == "OPTIONS" && rt.autoOptions) && !rt.static && rt.prot
+  | none => false
+
+def acceptsB (a : Option (List Char)) (τ : List Char) : Bool :=
+  match authOK a τ with
+  | .accept => true
+  | _ => false
+
+def stepH (sticky : Bool) (V : View σ π) (t : Table) (τ : List Char) (s : Srv σ) (r : Request π) (raised : Bool) :
+    Srv σ × Nat :=
+  let out := if sticky && s.residue then handleM [(r.method, true)] V t (some τ) s.st r      -- marker set: check skipped
+             else handle V t (some τ) s.st r
+  ({ st := out.1, residue := s.residue || (sticky && raised && reachesWrapper t r && acceptsB r.auth τ) }, out.2)
+
+def runH (sticky : Bool) (V : View σ π) (t : Table) (τ : List Char) (s : Srv σ) : List (Request π × Bool) → Srv σ
+  | [] => s
+  | (r, raised) :: rest => runH sticky V t τ (stepH sticky V t τ s r raised).1 rest
+
+/-- observations: (kind of history of authorised requests, was a refused credential served afterwards / meanwhile?) -/
+abbrev ResidueObs := List (String × Bool)
+
+def checkIsStateless (o : ResidueObs) : Bool := o.all (fun x => !x.2)
+
+/-- rule `i` is a protected non-public application rule dispatching method `m` -/
+def protectedAt (t : Table) (i : Nat) (m : String) : Bool :=
+  match t.routes[i]? with
+  | some r => !isPublic r && !r.static && r.prot && r.methods.contains m && !(m == "OPTIONS" && r.autoOptions)
+  | none => false
+
 end Bptk.C15
